@@ -85,6 +85,32 @@ class Canon:
             return lambda v: False
         if c == -1:
             return lambda v: True
+        # (a op b) >> s  ==  (a >> s) op (b >> s),  ~a >> s  ==  ~(a >> s)   (an arithmetic right shift acts on every bit
+        # position alike);  mask(n) >> s  ==  mask(n - s)  and  (-1 << n) >> s  ==  -1 << (n - s)   for n >= s, which is what
+        # a mask shifted down by the low end of its own window always satisfies
+        if isinstance(e, ast.BinOp) and isinstance(e.op, ast.RShift):
+            x = self._resolve(e.left)
+            if isinstance(x, ast.BinOp) and isinstance(x.op, (ast.BitAnd, ast.BitOr, ast.BitXor)):
+                return self._bool_fn(ast.BinOp(left=ast.BinOp(left=x.left, op=ast.RShift(), right=e.right), op=x.op,
+                                               right=ast.BinOp(left=x.right, op=ast.RShift(), right=e.right)), leaves)
+            if isinstance(x, ast.UnaryOp) and isinstance(x.op, ast.Invert):
+                inner = self._bool_fn(ast.BinOp(left=x.operand, op=ast.RShift(), right=e.right), leaves)
+                return lambda v: not inner(v)
+            if self._pow2_diff(x) is not None:
+                hi, lo = self._pow2_diff(x)
+                return self._bool_fn(ast.BinOp(left=self._window(hi, lo), op=ast.RShift(), right=e.right), leaves)
+            mx = self._mask_exp(x)
+            if mx is not None:
+                n = self.arith(ast.BinOp(left=mx[0], op=ast.Sub(), right=e.right))
+                if n == ("int", 0):
+                    return (lambda v: True) if mx[1] else (lambda v: False)
+                if not (n[0] == "int" and n[1] < 0):
+                    i = self._leaf_index(leaves, ("mask", n))
+                    return (lambda v: not v[i]) if mx[1] else (lambda v: v[i])
+        # (1 << hi) - (1 << lo)  ==  mask(hi) & ~mask(lo)   for hi >= lo (the bits lo..hi-1)
+        if self._pow2_diff(e) is not None:
+            hi, lo = self._pow2_diff(e)
+            return self._bool_fn(self._window(hi, lo), leaves)
         # x % (1 << n)  ==  x & mask(n)
         if isinstance(e, ast.BinOp) and isinstance(e.op, ast.Mod) and _pow2_exp(self._resolve(e.right)) is not None:
             x = self._bool_fn(e.left, leaves)
@@ -161,6 +187,42 @@ class Canon:
                     break
                 e = e2
         return e
+
+    def _pow2_diff(self, e):
+        """`(1 << hi) - (1 << lo)` -> (hi, lo) exponent ASTs"""
+        if isinstance(e, ast.BinOp) and isinstance(e.op, ast.Sub):
+            hi, lo = _pow2_exp(self._resolve(e.left)), _pow2_exp(self._resolve(e.right))
+            if hi is not None and lo is not None and not _is_int(e.right, 1):
+                return hi, lo
+        return None
+
+    @staticmethod
+    def _window(hi, lo):
+        one = ast.Constant(value=1)
+        mk = lambda n: ast.BinOp(left=ast.BinOp(left=one, op=ast.LShift(), right=n), op=ast.Sub(), right=one)
+        return ast.BinOp(left=mk(hi), op=ast.BitAnd(), right=ast.UnaryOp(op=ast.Invert(), operand=mk(lo)))
+
+    def _mask_exp(self, e):
+        """-> (exponent AST, negated) if `e` is one of the mask idioms"""
+        if isinstance(e, ast.BinOp) and isinstance(e.op, ast.Sub) and _is_int(e.right, 1):
+            ex = _pow2_exp(self._resolve(e.left))
+            if ex is not None:
+                return ex, False
+        if isinstance(e, ast.BinOp) and isinstance(e.op, ast.Add):
+            for a, b in ((e.left, e.right), (e.right, e.left)):
+                if _is_int(b, -1):
+                    ex = _pow2_exp(self._resolve(a))
+                    if ex is not None:
+                        return ex, False
+        if isinstance(e, ast.BinOp) and isinstance(e.op, ast.LShift):
+            l = self._resolve(e.left)
+            if _is_int(l, -1) or (isinstance(l, ast.UnaryOp) and isinstance(l.op, ast.Invert) and _is_int(l.operand, 0)):
+                return e.right, True
+        if isinstance(e, ast.UnaryOp) and isinstance(e.op, ast.USub):
+            ex = _pow2_exp(self._resolve(e.operand))
+            if ex is not None:
+                return ex, True
+        return None
 
     def _mask_form(self, e):
         """-> (("mask", n), negated) if `e` is one of the mask idioms, else None"""
@@ -284,6 +346,10 @@ class Canon:
                     return self.bits(e.left)
                 return ("shl", self.bits(e.left), amt)
             if isinstance(e.op, ast.RShift):
+                x = self._resolve(e.left)
+                if (isinstance(x, ast.BinOp) and isinstance(x.op, (ast.BitAnd, ast.BitOr, ast.BitXor))) or \
+                        (isinstance(x, ast.UnaryOp) and isinstance(x.op, ast.Invert)) or self._pow2_diff(x) is not None:
+                    return self.bits(e)         # distributed over the bitwise operators (see _bool_fn)
                 amt = self.arith(e.right)
                 if amt == ("int", 0):
                     return self.bits(e.left)
